@@ -46,6 +46,16 @@ def extractor(name, RU):
         return f
     if name == "SequOOL":
         return lambda n: (len(n.rewards), code_reward(n.rewards[0], RU) if n.rewards else R.NINF, 1 if n.opened else 0, 0, 0)
+    if name == "StroquOOL":
+        def g(n):
+            tot = 0
+            for r in n.rewards:
+                c = code_reward(r, RU)
+                if c in (R.NANC, R.NINF):
+                    return (R.NANC,) * 5
+                tot += c
+            return (R.capint(n.visited_times), len(n.rewards), tot, 1 if n.opened else 0, 0)
+        return g
     raise KeyError(name)
 
 
